@@ -53,6 +53,8 @@ pub struct XferCfg {
     pub script: Vec<(u32, Adv)>,
     /// resend the request when no first reply arrives (a real client does)
     pub resend_request: bool,
+    /// writer: the process dies after having sent this many DATA datagrams (possibly mid-window)
+    pub die_after_blocks: Option<u64>,
 }
 
 impl XferCfg {
@@ -69,6 +71,7 @@ impl XferCfg {
             eager_reack: false,
             script: vec![],
             resend_request: true,
+            die_after_blocks: None,
         }
     }
     pub fn opt_num(&self, name: &str) -> Option<u64> {
@@ -521,6 +524,22 @@ impl Writer {
     }
 
     fn send_block(&mut self, cx: &mut Cx, i: u64) {
+        if self.silent {
+            return;
+        }
+        if let Some(n) = self.cfg.die_after_blocks {
+            if self.blocks_sent >= n {
+                cx.adversarial("peer-silent");
+                cx.note(format!("writer dies after {n} DATA datagrams"));
+                if cx.icmp_enabled() {
+                    cx.close_endpoint();
+                }
+                self.silent = true;
+                self.gen += 1;
+                self.status = Status::Failed("scripted death".into());
+                return;
+            }
+        }
         if let Some(t) = self.tid {
             let d = rfc::encode(&Pkt::Data { n: i as u16, payload: self.block(i).to_vec() });
             self.blocks_sent += 1;
@@ -531,13 +550,15 @@ impl Writer {
     fn pump(&mut self, cx: &mut Cx) {
         let n = self.nblocks();
         let w = self.neg.windowsize;
-        while self.next < self.base + w && self.next <= n {
+        while self.next < self.base + w && self.next <= n && !self.silent {
             let i = self.next;
             self.send_block(cx, i);
             self.highest_sent = self.highest_sent.max(i);
             self.next += 1;
         }
-        self.arm(cx);
+        if !self.silent {
+            self.arm(cx);
+        }
     }
 
     fn run_script(&mut self, cx: &mut Cx) -> bool {
